@@ -426,3 +426,26 @@ func MakeTMHeader(chainID string, height int64, ts time.Time, appHash []byte, va
 
 // Revision returns the revision number encoded in the chain id.
 func (n *Node) Revision() uint64 { return clienttypes.ParseChainID(n.ChainID) }
+
+// NewBareNode builds a fresh app and runs InitChain with a recorded request
+// (used by replicas that replay a tape; it has no validator keys or accounts).
+func NewBareNode(req abci.RequestInitChain, logger log.Logger) *Node {
+	if logger == nil {
+		logger = log.NewNopLogger()
+	}
+	encCfg := encoding.MakeConfig(app.ModuleBasics)
+	tp := app.NewTeleport(logger, dbm.NewMemDB(), nil, true, map[int64]bool{}, app.DefaultNodeHome, 0, encCfg, simapp.EmptyAppOptions{})
+	n := &Node{App: tp, ChainID: req.ChainId, TxConfig: encCfg.TxConfig, Blocks: map[int64]BlockRec{}, InitReq: req}
+	tp.InitChain(req)
+	return n
+}
+
+// BeginHeader starts a block with a recorded header (replicas).
+func (n *Node) BeginHeader(h tmproto.Header) {
+	if n.InBlock {
+		panic("Begin while in block")
+	}
+	n.Header = h
+	n.App.BeginBlock(abci.RequestBeginBlock{Header: h})
+	n.InBlock = true
+}
